@@ -57,11 +57,13 @@ pub fn run(tier: Tier) -> i32 {
     let (mut profile, gates) = profile_for(&findings, "C09");
     profile.wsdl = 0;
     profile.collide = true;
+    profile.kind_mix = true;
+    profile.xml_lang = 1;
     profile.colliding_abbrev = true;
     profile.max_files = 4;
     ev.extra.insert("gates_masked".into(), json!(gates));
     let scratch = scratch_dir("c09");
-    let n = tier.pick(200, 3000);
+    let n = tier.pick(500, 5000);
     let (cases, mut trees) = pipeline::generate(n, "C09", &profile);
     let pairs: Vec<(Vec<Failure>, Vec<Failure>)> = cases
         .par_iter()
